@@ -854,6 +854,31 @@ func checkRedirect(r *Report, p *Prog, rule, orderRule string) {
 						}
 					}
 					r.Check(okP, rule, cons, p.InstrPos(call), "parameter bound to the configured DefaultRedirectURI at every call site", "the default redirect target is supplied from "+strings.Join(srcs, ", "))
+					// ... and it is used only when the response names no flow (no RelayState), or names one whose cookie is absent
+					// while IdP-initiated login is allowed: a RelayState that names a cookie which is present but does not validate
+					// (expired, altered, renamed) is a refusal, not a default landing
+					// the condition under which the target is this parameter: the phi edges that carry it (an edge taken
+					// straight from a test is selected by that test, which no block condition records)
+					if sel := phiSelectCond(fc, target, lf.V, 0); sel != nil {
+						cnd = B.And(fc.Cond(call.Block()), sel)
+					}
+					noRelay, noCookie, allow := B.False, B.False, B.False
+					for _, name := range B.Support(cnd) {
+						ai := a.Atoms[name]
+						if ai == nil {
+							continue
+						}
+						switch {
+						case ai.Kind == "empty" && strings.Contains(name, `.Form.Get(c:"RelayState")`):
+							noRelay = B.Or(noRelay, B.Var(name))
+						case strings.Contains(name, "ErrNoCookie") && ai.Kind == "eq":
+							noCookie = B.Or(noCookie, B.Var(name))
+						case strings.HasSuffix(name, "AllowIDPInitiated"):
+							allow = B.Or(allow, B.Var(name))
+						}
+					}
+					okD := B.Implies(cnd, B.Or(noRelay, B.And(noCookie, allow)))
+					r.Check(okD, rule, cons+" (when)", p.InstrPos(call), "no RelayState, or no cookie and IdP-initiated login allowed", "the default redirect (and the session that precedes it) is reached although the RelayState names a tracking cookie that is present and failed to validate: e.g. under "+firstCube(B, B.And(cnd, B.Not(B.Or(noRelay, B.And(noCookie, allow))))))
 				case strings.HasSuffix(ap, ".URI") && strings.Contains(ap, "GetTrackedRequest#"):
 					okT := false
 					for _, name := range B.Support(cnd) {
@@ -1404,4 +1429,33 @@ func paramFieldInCaller(caller, home *ssa.Function, v ssa.Value) ssa.Value {
 		}
 	}
 	return nil
+}
+
+// phiSelectCond: the condition under which v (a value merged by phis of fc.Fn) is want: the disjunction, over the phi edges
+// that carry want, of the condition of the edge. nil when v is not built from want by phis.
+func phiSelectCond(fc *FuncCtx, v, want ssa.Value, depth int) *bddNode {
+	B := fc.A.B
+	if v == want {
+		return B.True
+	}
+	ph, ok := v.(*ssa.Phi)
+	if !ok || depth > 6 {
+		return nil
+	}
+	fc.ensureConds()
+	acc := B.False
+	found := false
+	for i, e := range ph.Edges {
+		sub := phiSelectCond(fc, e, want, depth+1)
+		if sub == nil {
+			continue
+		}
+		found = true
+		pred := ph.Block().Preds[i]
+		acc = B.Or(acc, B.And(B.And(fc.Cond(pred), fc.edgeCond(pred, ph.Block())), sub))
+	}
+	if !found {
+		return nil
+	}
+	return acc
 }
